@@ -2,6 +2,7 @@
 package main
 
 import (
+	"math"
 	"context"
 	"errors"
 	"fmt"
@@ -34,6 +35,8 @@ type cfg struct {
 	Always int
 	// Parallel: the flush requests are issued together (one per aggregator of one flush) instead of one after the other
 	Parallel bool `json:",omitempty"`
+	// Hist: the flushed map also holds a histogram timer (visited after the counters, i.e. after a batch roll-over)
+	Hist bool `json:",omitempty"`
 }
 
 func (c cfg) String() string {
@@ -43,7 +46,7 @@ func (c cfg) String() string {
 	if c.Parallel {
 		return fmt.Sprintf("%s-s%d-b%d-q%d-f%d-c%v-el%v-r%d-parallel", c.Kind, c.Series, c.Batch, c.Requests, c.Failures, c.Cancel, c.Elapsed, c.MaxReq)
 	}
-	return fmt.Sprintf("%s-s%d-b%d-q%d-f%d-c%v-el%v-r%d", c.Kind, c.Series, c.Batch, c.Requests, c.Failures, c.Cancel, c.Elapsed, c.MaxReq)
+	return fmt.Sprintf("%s-s%d-b%d-q%d-f%d-c%v-el%v-r%d", c.Kind, c.Series, c.Batch, c.Requests, c.Failures, c.Cancel, c.Elapsed, c.MaxReq) + map[bool]string{true: "-hist"}[c.Hist]
 }
 
 type cbRec struct {
@@ -83,6 +86,13 @@ func (r *run) fault(n int, label string) int {
 		r.faults = append(r.faults, fmt.Sprintf("%s=%d", label, o))
 	}
 	return o
+}
+
+func mkMapHist(n int) *gostatsd.MetricMap {
+	mm := mkMap(n)
+	mm.Timers["th"] = map[string]gostatsd.Timer{"gsd_histogram:1_5,s:h": {Tags: gostatsd.Tags{"gsd_histogram:1_5"}, Source: "h", Timestamp: 5, Values: []float64{0.5, 3},
+		Histogram: map[gostatsd.HistogramThreshold]int{1: 1, 5: 2, gostatsd.HistogramThreshold(math.Inf(1)): 2}}}
+	return mm
 }
 
 func mkMap(n int) *gostatsd.MetricMap {
@@ -136,6 +146,10 @@ func body(c cfg, r *run) func(*vsched.Exec) {
 			return bk.HTTPAnswer{Status: 200}
 		}
 		b.Env.Net.DialErr = func(n int) error {
+			if c.Always == 4 {
+				r.faults = append(r.faults, "dial=refused")
+				return bk.ErrRefused // the peer is down for good
+			}
 			if r.fault(2, "dial") == 1 {
 				return bk.ErrRefused
 			}
@@ -158,7 +172,7 @@ func body(c cfg, r *run) func(*vsched.Exec) {
 		if b.Run != nil {
 			vsched.GoNamed("backend.Run", func() { b.Run(ctx) })
 		}
-		done := make(chan int, 4)
+		done := make(chan int, c.Requests+4)
 		if c.Parallel {
 			// the backend has been running for a while (and may have failed to connect once already) when the
 			// first flush comes
@@ -173,7 +187,11 @@ func body(c cfg, r *run) func(*vsched.Exec) {
 			for q := 0; q < c.Requests; q++ {
 				q := q
 				r.issued++
-				b.Backend.SendMetricsAsync(ctx, mkMap(c.Series), func(errs []error) {
+				mm := mkMap(c.Series)
+				if c.Hist {
+					mm = mkMapHist(c.Series)
+				}
+				b.Backend.SendMetricsAsync(ctx, mm, func(errs []error) {
 					if vsched.Aborting() {
 						return // deferred calls unwinding during the harness' own teardown are not part of the execution
 					}
@@ -190,7 +208,7 @@ func body(c cfg, r *run) func(*vsched.Exec) {
 				}
 			}
 		})
-		if c.Cancel {
+		if c.Cancel && c.Always != 4 {
 			vsched.GoNamed("canceller", func() {
 				r.cancelled = true
 				vsched.Cancel(cancel)
@@ -203,6 +221,12 @@ func body(c cfg, r *run) func(*vsched.Exec) {
 		}
 		for step := 0; step < steps; step++ {
 			vsched.Quiesce("idle")
+			if c.Always == 4 && c.Cancel && !r.cancelled {
+				// everything that fits is queued, one request is still waiting for room: now the flush is cancelled
+				r.cancelled = true
+				vsched.Cancel(cancel)
+				continue
+			}
 			if len(r.cbs) >= c.Requests || mock.Len() == 0 {
 				break
 			}
@@ -320,6 +344,8 @@ func configs() []cfg {
 			cs = append(cs, cfg{Kind: k, Series: 1, Batch: 2, Requests: 1, Always: a, Elapsed: 3 * time.Second, MaxReq: 1})
 		}
 	}
+	// cancellation while a batch roll-over waits for a request buffer, with a histogram timer still to come
+	cs = append(cs, cfg{Kind: "influxdb1", Series: 1, Batch: 1, Requests: 1, Failures: 0, Cancel: true, Elapsed: 3 * time.Second, MaxReq: 1, Hist: true})
 	for _, k := range sock {
 		cs = append(cs, cfg{Kind: k, Series: 1, Requests: 2, Failures: 1})
 		cs = append(cs, cfg{Kind: k, Series: 1, Requests: 1, Failures: 2})
@@ -330,6 +356,11 @@ func configs() []cfg {
 	}
 	// two requests of one flush in flight together, three transport faults (refused, write error, refused again)
 	cs = append(cs, cfg{Kind: "statsdaemon-tcp", Series: 1, Requests: 2, Failures: 3, Parallel: true}, cfg{Kind: "graphite-tags", Series: 1, Requests: 2, Failures: 3, Parallel: true})
+	if vrt.Thorough() {
+		// more flush requests than the sender's queue holds while the peer refuses connections, then cancellation: the
+		// request that did not fit must be completed as well (too many interleavings to finish; thorough tier only)
+		cs = append(cs, cfg{Kind: "graphite-tags", Series: 1, Requests: 13, Always: 4, Cancel: true, Parallel: true})
+	}
 	// a stream of several datagrams: a write error in the middle, reconnect, and a second write error
 	cs = append(cs, cfg{Kind: "statsdaemon-udp", Series: 170, Requests: 1, Failures: 2})
 	for _, k := range []string{"cloudwatch", "stdout", "null"} {
